@@ -22,7 +22,7 @@ FLOORS = {"quick": {"unary": 50000, "addsub": 200000, "scale": 200000, "divmod":
           "thorough": {"unary": 500000, "addsub": 2 * 10**6, "scale": 2 * 10**6, "divmod": 2 * 10**6, "compare": 10**6,
                        "yearsmonths": 200000, "interval_ops": 50000}}
 REQUIRED_HOOKS = []      # the private _divide_and_round hook adds an exact-rational check; the operators are judged at the boundary
-TECHNIQUE = "differential runtime monitor against datetime.timedelta for every Duration operator x operand kind x side; contract on _divide_and_round against exact rational round-half-even; Interval (signed/absolute) operands on both sides; fold-sibling intervals visited in one process (history workload)"
+TECHNIQUE = "differential runtime monitor against datetime.timedelta for every Duration operator x operand kind x side; contract on _divide_and_round against exact rational round-half-even; Interval (signed/absolute) operands on both sides; fold-sibling intervals, and operands that equal an earlier years/months operand as timedeltas, visited in one process (history workloads)"
 LEVEL_TEXT = ("every operator result is compared with the same operator on native timedeltas (exact integer microseconds) and its "
               "type is checked; operands include both signs, plain timedeltas on either side, ints, floats with long binary "
               "expansions and constructed round-half-even ties; held on what was observed")
@@ -246,6 +246,33 @@ def run(M, c):
                         d=repr(d), other=repr(w_))
         except OverflowError:
             pass
+        # history: an operand carrying years/months is used first (not in the statement's domain, but ordinary use), then
+        # operands WITHOUT years/months that are equal and hash-equal to it as timedeltas: anything memoised per operand
+        # value would be served to them
+        if td_us(d) != 0 and b != 0 and abs(td_us(d)) < 2**33 * US and abs(b) < 2**33 * US:
+            for fn in (lambda: db // d, lambda: db % d, lambda: db / d, lambda: divmod(db, d), lambda: db + d, lambda: db - d, lambda: d // db,
+                       lambda: d % db, lambda: tb // d, lambda: abs(d), lambda: -d):
+                _try(fn)
+            tw_td = dt.timedelta(microseconds=td_us(d))
+            try:
+                tw_d = D(microseconds=td_us(d))
+            except OverflowError:
+                tw_d = None
+            for kind, ob in (("td", tw_td), ("D", tw_d)):
+                if ob is None or td_us(ob) != td_us(d):
+                    continue
+                hctx = dict(ctx, b_us=td_us(d), after=repr(d))
+                _cmp(M, "divmod", f"floordiv-{kind}:after-equal-years-months-operand", _try(lambda: db // ob), _try(lambda: tb // tw_td), "number", **hctx)
+                _cmp(M, "divmod", f"truediv-{kind}:after-equal-years-months-operand", _try(lambda: db / ob), _try(lambda: tb / tw_td), "number", **hctx)
+                _cmp(M, "divmod", f"mod-{kind}:after-equal-years-months-operand", _try(lambda: db % ob), _try(lambda: tb % tw_td), "Duration", **hctx)
+                _cmp(M, "divmod", f"divmod-{kind}:after-equal-years-months-operand", _try(lambda: divmod(db, ob)), _try(lambda: divmod(tb, tw_td)), "Duration", **hctx)
+                _cmp(M, "addsub", f"add-{kind}:after-equal-years-months-operand", _try(lambda: db + ob), _try(lambda: tb + tw_td), "Duration", **hctx)
+                _cmp(M, "addsub", f"sub-{kind}:after-equal-years-months-operand", _try(lambda: db - ob), _try(lambda: tb - tw_td), "Duration", **hctx)
+                _cmp(M, "divmod", f"rfloordiv-{kind}:after-equal-years-months-operand", _try(lambda: ob // db), _try(lambda: tw_td // tb), "number", **hctx)
+                if kind == "D":
+                    _cmp(M, "unary", "neg:after-equal-years-months-operand", _try(lambda: -ob), _try(lambda: -tw_td), "Duration", **hctx)
+                    _cmp(M, "unary", "abs:after-equal-years-months-operand", _try(lambda: abs(ob)), _try(lambda: abs(tw_td)), None, **hctx)
+            M.count("history_equal_years_months_operand")
         rest = td_us(d) - (365 * y + 30 * mo) * 86400 * US
         ok = (n.years, n.months) == (-y, -mo) and td_us(n) == -td_us(d) and (m.years, m.months) == (y * k, mo * k)
         okm = td_us(m) == rest * k + (365 * y * k + 30 * mo * k) * 86400 * US
